@@ -63,6 +63,23 @@ def near_duplicate(rng, r):
     return n
 
 
+def outside_pair(rng, r):
+    """Two rules derived from r that differ in one byte only, both bytes outside the library's sort alphabet
+    (the comparison has to fall back on the byte values there)."""
+    import copy
+    keys = [k for k, v in r.items() if isinstance(v, str) and v and not v.startswith('"') and k in ("Path", "Target", "Peer", "PeerLabel", "Name", "MountPoint", "Source")]
+    if not keys:
+        return None
+    k = rng.choice(keys)
+    x, y = rng.sample(["é", "ü", "ß", "Ω", "日", "\u00a0"], 2)
+    a, b = copy.deepcopy(r), copy.deepcopy(r)
+    a["Comment"] = b["Comment"] = ""
+    base = r[k].rstrip("/")
+    tail = "/" if r[k].endswith("/") else ""
+    a[k], b[k] = base + x + tail, base + y + tail
+    return a, b
+
+
 def in_variable(s, i):
     a = s.rfind("@{", 0, i + 1)
     return a >= 0 and s.find("}", a) >= i
@@ -93,7 +110,7 @@ def run(ctx):
     rng = ctx.rng
     n_tr, n_lists = (20000, 2000) if ctx.tier == "quick" else (600000, 60000)
     ctx.rule = ("each triple of valid same-kind rules (strata: file rules with all-known, no-known and mixed path prefixes, owner/non-owner, "
-                "mixed qualifiers, near-duplicates differing in letter case / one byte / one flag) is one case for antisymmetry, transitivity "
+                "mixed qualifiers, twins differing in letter case / one appended byte / one flag / one byte outside the sort alphabet on both sides) is one case for antisymmetry, transitivity "
                 "and `equal only if identical` on Rule.Compare; each list of 3-15 rules x 8 permutations is one case for idempotence and "
                 "permutation-independence of Rules.Sort (rendered text). Non-trivial = triples with three pairwise different rules; lists "
                 "whose permutations differ")
@@ -103,10 +120,17 @@ def run(ctx):
     # paths containing '=' are mis-tokenised (finding C09/equals-in-path): not part of this domain
     pool = [r for r in pool if not any("=" in str(r.get(k, "")) for k in ("Path", "Target", "Source", "MountPoint", "OldRoot", "NewRoot", "Exec"))]
     extra = []
+    twins = []       # pairs that differ in exactly one edit: compared with each other, not only with random partners
     for r in pool[:pool_n // 3]:
         n = near_duplicate(rng, r)
         if n:
             extra.append(n)
+            twins.append((r, n))
+        if rng.random() < 0.3:
+            ab = outside_pair(rng, r)
+            if ab:
+                extra += list(ab)
+                twins.append(ab)
     line_rules = [{"kind": "comment", "text": "# " + c, "Comment": ""} for c in ("first note", "second note", "Zeta", "alpha")]
     line_rules += [{"kind": "include", "text": "include <abstractions/%s>" % a, "Comment": ""} for a in ("base", "nameservice-strict", "dconf-write", "bus-session")]
     line_rules += [{"kind": "include", "text": "include if exists <local/foo>", "Comment": ""}]
@@ -125,7 +149,15 @@ def run(ctx):
     # --- triples ---------------------------------------------------------------------------
     triples = []
     kinds = [k for k in bykind if len(bykind[k]) >= 3 and k not in ("comment",)]
+    alive = {id(r) for r in pool}
+    twins = [(a, b) for a, b in twins if id(a) in alive and id(b) in alive]
     for _ in range(n_tr):
+        if twins and rng.random() < 0.15:
+            a, b = rng.choice(twins)
+            t = [a, b, rng.choice(bykind[a["kind"]])]
+            rng.shuffle(t)
+            triples.append(t)
+            continue
         k = rng.choice(kinds) if rng.random() < 0.5 else "file"
         if k not in bykind or len(bykind[k]) < 3:
             k = rng.choice(kinds)
